@@ -38,6 +38,51 @@ CHECKS = {
              "than enumerated, the cgranges path (cgranges is not installed), distance arithmetic, parents.",
         design="DESIGN.md section 4, C02",
     ),
+    "C03": dict(
+        technique="interpretation of extract_sequence / Sequence.__getitem__ / reverse_complement / append on order "
+                  "types of block layouts against the base-image oracle + structural slice/complement discipline",
+        text="For every order type of 1-2 block layouts (3 in thorough), both strands, over a genome containing every "
+             "letter of NT_EXTENDED_GAPPED in both cases, the analyser interprets extraction, strand reversal, splitting "
+             "into relative sub-intervals and the derived-sequence operations (all slice bound forms, reverse complement, "
+             "append) and compares with the image oracle; a derived sequence's recorded location must spell its characters.",
+        note="Trusted: CPython ast, sa/interp.py (Bio.Seq is modelled as str), IUPAC tables of C15. U is identified with T "
+             "for complement round trips. Other alphabets' tables are decided in C15.",
+        design="DESIGN.md section 4, C03",
+    ),
+    "C04": dict(
+        technique="interpretation of the lift-over API on enumerated hierarchies (depth 1-3, single/multi-block levels on "
+                  "either strand) and chunk windows against base-by-base composition",
+        text="Hierarchies chromosome <- level-1 <- level-2 are built inside the analyser's interpreter; every small child "
+             "location is lifted by type and by sequence and compared with the composed enumeration, composed strand, "
+             "ancestor parent and preserved sequence; refusals (missing ancestor, non-contiguous) are checked; "
+             "liftover_location_to_seq_chunk_parent is compared with 'the part inside the chunk' for every window "
+             "(block structure retained, EmptyLocation outside).",
+        note="Trusted: CPython ast, sa/interp.py. Depth and layouts are bounded as stated.",
+        design="DESIGN.md section 4, C04",
+    ),
+    "C05": dict(
+        technique="interpretation of CDSInterval against a reference reading-frame walker for every frame vector on "
+                  "enumerated exon layouts; shift/phase algebra decided mod 3 (shared with C15)",
+        text="For every order type of 1-2 exon layouts (3 in thorough, 0-bp gaps included), both strands and every frame "
+             "vector in {0,1,2}^k the analyser interprets codon locations, coding sequence (value and type, before and after "
+             "the codon cache is filled), translation per table, num_codons, stop detection and chromosome windows, and "
+             "compares with a walker written from the property statement; construct_frames_from_location is checked to "
+             "describe one uninterrupted frame.",
+        note="Trusted: CPython ast, sa/interp.py, the walker in sa/rules/c05.py, tables of C15. One known finding "
+             "(single-exon window offset).",
+        design="DESIGN.md section 4, C05",
+    ),
+    "C07": dict(
+        technique="interpretation of chromosome-built and chunk-built twins (CDS, transcript, feature) for every chunk "
+                  "window + structural source check of identifier digests",
+        text="Twins are built on the whole chromosome and on every chunk window inside the analyser's interpreter: "
+             "chromosome-level answers must be identical, the chunk-relative location/sequence/codons must be the "
+             "chromosome answers restricted to the chunk, and an interval outside the chunk must be empty. Digest call "
+             "sites are checked not to read chunk-relative accessors.",
+        note="Trusted: CPython ast, sa/interp.py, reference walker of C05. Known findings: single-exon codon offset, "
+             "stand-alone CDS outside the chunk, collection-level digests of the chunk-relative location.",
+        design="DESIGN.md section 4, C07",
+    ),
     "C06": dict(
         technique="structural wiring table of the 35 coordinate wrappers + guard dominance for the optional CDS + "
                   "interpretation of the coordinate API on every CDS placement over small exon layouts",
